@@ -451,10 +451,10 @@ Proof.
   rewrite H1, H2, H3. reflexivity.
 Qed.
 
-(* configuration side: an HTML-family formatter (not haml/slim/pug), no wrapped text, JSX off,
+(* configuration side: an HTML-family formatter (not haml/slim/pug), no wrapped text,
    comments off, indent / newline strings and attribute tables free of '<' *)
 Definition cfg_ok (x : xconfig) : bool :=
-  html_syntax (mc_syntax (xc_m x)) && negb (mc_jsx (xc_m x)) &&
+  html_syntax (mc_syntax (xc_m x)) &&
   match mc_text (xc_m x) with WNone => true | _ => false end &&
   cfg_clean (xc_o x).
 
@@ -465,7 +465,7 @@ Definition name_fine (x : xconfig) (n : str) : bool :=
 (* from a token tree of fine names to the nesting of the output's tag chunks *)
 Theorem expand_tree x s toks root :
   cfg_ok x = true ->
-  tokenize s = TOk toks -> parse false toks = POk root ->
+  tokenize s = TOk toks -> parse (mc_jsx (xc_m x)) toks = POk root ->
   forallb (named (name_fine x)) root = true ->
   (total_list root <= budget_of (mc_max_repeat (xc_m x)))%Z ->
   exists st,
@@ -473,8 +473,7 @@ Theorem expand_tree x s toks root :
     nestT 0 (tags st) = map (fun p => (fst p, tag_name (xc_o x) (snd p))) (flat_map (nshape 0) root).
 Proof.
   intros Hc Ht Hp Hn Hb. unfold cfg_ok in Hc.
-  apply andb_prop in Hc. destruct Hc as [Hc Hclean]. apply andb_prop in Hc. destruct Hc as [Hc Htext].
-  apply andb_prop in Hc. destruct Hc as [Hsyn Hjsx]. apply negb_true_iff in Hjsx.
+  apply andb_prop in Hc. destruct Hc as [Hc Hclean]. apply andb_prop in Hc. destruct Hc as [Hsyn Htext].
   set (m := xc_m x) in *.
   assert (Htx : mc_text m = WNone) by (destruct (mc_text m); [reflexivity|discriminate|discriminate]).
   destruct (convert_named (mkCenv (mc_text m) (mc_variables m) (mc_href m)) (mc_max_repeat m) (name_fine x) root Htx Hn Hb)
@@ -487,7 +486,7 @@ Proof.
   assert (HP3 : forall n, name_fine x n = true -> good_name n = true).
   { intros n H. unfold name_fine in H. apply andb_prop in H. destruct H as [H _]. apply andb_prop in H. apply H. }
   exists (html_format (xc_o x) forest). split.
-  - unfold expand_markup, markup_parse. fold m. unfold parse_abbr. rewrite Ht, Hjsx, Hp, Hcv. cbn [bind].
+  - unfold expand_markup, markup_parse. fold m. unfold parse_abbr. rewrite Ht. fold m in Hp. rewrite Hp, Hcv. cbn [bind].
     rewrite walk_resolve_eq. rewrite (walk_list_simple m [] _ (name_fine x) HP1 forest Hsimple). cbn [bind].
     rewrite (transform_list_simple m (name_fine x) HP2 forest Hsimple).
     rewrite (stringify_html _ _ _ Hsyn). reflexivity.
